@@ -4,6 +4,7 @@ import (
 	"errors"
 	"net"
 	"sort"
+	"strings"
 
 	"github.com/pascaldekloe/mqtt/verifsim"
 )
@@ -21,8 +22,9 @@ type Disk struct {
 }
 
 type DiskOpts struct {
-	ErrBefore int // permille: operation fails without effect
-	ErrAfter  int // permille: operation takes effect but reports failure (Save/Delete)
+	ErrBefore int    // permille: operation fails without effect
+	ErrOnly   string // when set: only operations of these kinds fail ("S", "D", "L", "I")
+	ErrAfter  int    // permille: operation takes effect but reports failure (Save/Delete)
 	Shuffle   bool
 	// CorruptLoad: permille of Load results altered in one byte or
 	// truncated on their way to the client (the medium keeps the value)
@@ -133,7 +135,7 @@ func (s *Sim) diskAction(p *park) Action {
 			return
 		}
 		fail, after := false, false
-		if w.FaultOK() && w.Tape.Flip("dkerr", d.Opts.ErrBefore) {
+		if w.FaultOK() && (d.Opts.ErrOnly == "" || strings.IndexByte(d.Opts.ErrOnly, op.kind) >= 0) && w.Tape.Flip("dkerr", d.Opts.ErrBefore) {
 			fail = true
 			w.Fault("disk_err_before_" + string(op.kind))
 		} else if (op.kind == 'S' || op.kind == 'D') && w.FaultOK() && w.Tape.Flip("dkerr2", d.Opts.ErrAfter) {
